@@ -103,6 +103,7 @@ def main(argv):
     try:
         repo = Repo()
         chk = Check(pid, a.tier)
+        chk.analysed["normal_form"] = {k: (v if not isinstance(v, list) else v[:12]) for k, v in sorted(repo.normal_stats.items())} or "source already in normal form"
         mod.run(repo, chk)
         if a.tier == "thorough" and not os.environ.get("VERIF_NO_SELFCHECK"):
             selfcheck(pid, mod, repo, chk)
